@@ -584,4 +584,348 @@ theorem point_in_poly2d_reverse (pt : V2 K) (poly : List (V2 K)) :
 example : 0 < shoelace2 ([⟨0,0⟩, ⟨1,0⟩, ⟨1,1⟩, ⟨0,1⟩] : List (V2 ℚ)) := by
   simp [shoelace2, edgeSum, polyEdges, cross]
 
+/-! ## segments_intersection2d, parallel branch (`parallel_intersection`, `between`) -/
+
+/-- `x` lies between `u` and `v` (in either order) -/
+def Btw (u v x : K) : Prop := (u ≤ x ∧ x ≤ v) ∨ (v ≤ x ∧ x ≤ u)
+
+/-- the point of parameter `t` on the line through `a` and `b` -/
+def linePt (a b : V2 K) (t : K) : V2 K := ⟨a.x + t * (b.x - a.x), a.y + t * (b.y - a.y)⟩
+
+omit [LinearOrder K] [IsStrictOrderedRing K] in
+private theorem ne_coord {a b : V2 K} (hab : a ≠ b) : b.x - a.x ≠ 0 ∨ b.y - a.y ≠ 0 := by
+  by_contra h
+  push Not at h
+  apply hab
+  obtain ⟨ax, ay⟩ := a; obtain ⟨bx, by'⟩ := b
+  simp only [V2.mk.injEq] at h ⊢
+  exact ⟨(sub_eq_zero.mp h.1).symm, (sub_eq_zero.mp h.2).symm⟩
+
+omit [LinearOrder K] [IsStrictOrderedRing K] in
+private theorem linePt_inj {a b : V2 K} (hab : a ≠ b) {t t' : K} (h : linePt a b t = linePt a b t') : t = t' := by
+  simp only [linePt, V2.mk.injEq] at h
+  rcases ne_coord hab with hx | hy
+  · have : (t - t') * (b.x - a.x) = 0 := by linear_combination h.1
+    exact sub_eq_zero.mp ((mul_eq_zero.mp this).resolve_right hx)
+  · have : (t - t') * (b.y - a.y) = 0 := by linear_combination h.2
+    exact sub_eq_zero.mp ((mul_eq_zero.mp this).resolve_right hy)
+
+omit [LinearOrder K] [IsStrictOrderedRing K] in
+/-- a point collinear with `a ≠ b` is a point of the line -/
+private theorem col_param {a b p : V2 K} (hab : a ≠ b) (h : area2 a b p = 0) : ∃ t, p = linePt a b t := by
+  obtain ⟨px, py⟩ := p
+  unfold area2 at h
+  simp only at h
+  rcases ne_coord hab with hx | hy
+  · refine ⟨(px - a.x) / (b.x - a.x), ?_⟩
+    simp only [linePt, V2.mk.injEq]
+    refine ⟨by field_simp; ring, ?_⟩
+    field_simp
+    linear_combination h
+  · refine ⟨(py - a.y) / (b.y - a.y), ?_⟩
+    simp only [linePt, V2.mk.injEq]
+    refine ⟨?_, by field_simp; ring⟩
+    field_simp
+    linear_combination -h
+
+private theorem onSeg_iff {a b p : V2 K} : OnSeg a b p ↔ ∃ t, 0 ≤ t ∧ t ≤ 1 ∧ p = linePt a b t := by
+  obtain ⟨px, py⟩ := p
+  simp only [OnSeg, linePt, V2.mk.injEq]
+
+private theorem onSeg_linePt {a b : V2 K} (hab : a ≠ b) (t : K) : OnSeg a b (linePt a b t) ↔ 0 ≤ t ∧ t ≤ 1 := by
+  rw [onSeg_iff]
+  constructor
+  · rintro ⟨t', h0, h1, h⟩
+    rw [linePt_inj hab h]; exact ⟨h0, h1⟩
+  · intro h; exact ⟨t, h.1, h.2, rfl⟩
+
+omit [LinearOrder K] [IsStrictOrderedRing K] in
+private theorem linePt_linePt (a b : V2 K) (φ ψ s : K) :
+    linePt (linePt a b φ) (linePt a b ψ) s = linePt a b (φ + s * (ψ - φ)) := by
+  simp only [linePt, V2.mk.injEq]; constructor <;> ring
+
+/-- sub-segments of a line in parameter form -/
+private theorem onSeg_sub {a b : V2 K} (hab : a ≠ b) (φ ψ τ : K) :
+    OnSeg (linePt a b φ) (linePt a b ψ) (linePt a b τ) ↔ Btw φ ψ τ := by
+  rw [onSeg_iff]
+  constructor
+  · rintro ⟨s, h0, h1, h⟩
+    rw [linePt_linePt] at h
+    have hτ := linePt_inj hab h
+    unfold Btw
+    rcases le_total φ ψ with hle | hle
+    · left; constructor <;> nlinarith [mul_nonneg h0 (sub_nonneg.mpr hle), mul_nonneg (sub_nonneg.mpr h1) (sub_nonneg.mpr hle)]
+    · right; constructor <;> nlinarith [mul_nonneg h0 (sub_nonneg.mpr hle), mul_nonneg (sub_nonneg.mpr h1) (sub_nonneg.mpr hle)]
+  · intro h
+    by_cases he : φ = ψ
+    · subst he
+      have : τ = φ := by unfold Btw at h; rcases h with h | h <;> exact le_antisymm h.2 h.1
+      subst this
+      exact ⟨0, le_refl _, zero_le_one, by rw [linePt_linePt]; congr 1; ring⟩
+    · have hne : ψ - φ ≠ 0 := sub_ne_zero.mpr (Ne.symm he)
+      refine ⟨(τ - φ) / (ψ - φ), ?_, ?_, ?_⟩
+      · unfold Btw at h
+        rcases h with h | h
+        · exact div_nonneg (by linarith) (by linarith)
+        · exact div_nonneg_of_nonpos (by linarith) (by linarith)
+      · unfold Btw at h
+        rcases h with h | h
+        · rw [div_le_one (lt_of_le_of_ne (by linarith) (Ne.symm hne))]; linarith
+        · rw [div_le_one_of_neg (lt_of_le_of_ne (by linarith) hne)]; linarith
+      · rw [linePt_linePt]; congr 1; field_simp; ring
+
+/-- one coordinate of `between`: `cu = au + γ (bu - au)`, `au ≠ bu` -/
+private theorem between_coord (au bu cu γ : K) (h : au ≠ bu) (hcu : cu = au + γ * (bu - au)) :
+    ((au ≤ cu ∧ cu ≤ bu) → (cu - au) / (bu - au) = γ ∧ 0 ≤ γ ∧ γ ≤ 1) ∧
+    (¬ (au ≤ cu ∧ cu ≤ bu) → (cu ≤ au ∧ bu ≤ cu) → (cu - bu) / (au - bu) = 1 - γ ∧ 0 ≤ γ ∧ γ ≤ 1) ∧
+    (¬ (au ≤ cu ∧ cu ≤ bu) → ¬ (cu ≤ au ∧ bu ≤ cu) → ¬ (0 ≤ γ ∧ γ ≤ 1)) := by
+  have hne : bu - au ≠ 0 := sub_ne_zero.mpr (Ne.symm h)
+  have hne' : au - bu ≠ 0 := sub_ne_zero.mpr h
+  have e1 : (cu - au) / (bu - au) = γ := by rw [hcu]; field_simp; ring
+  have e2 : (cu - bu) / (au - bu) = 1 - γ := by rw [hcu]; field_simp; ring
+  rcases lt_or_gt_of_ne h with hlt | hgt
+  · have hpos : 0 < bu - au := by linarith
+    have k1 : au ≤ cu ↔ 0 ≤ γ := by
+      rw [hcu]; constructor
+      · intro hh; by_contra hc; push Not at hc; nlinarith
+      · intro hh; nlinarith
+    have k2 : cu ≤ bu ↔ γ ≤ 1 := by
+      rw [hcu]; constructor
+      · intro hh; by_contra hc; push Not at hc; nlinarith
+      · intro hh; nlinarith
+    refine ⟨fun hA => ⟨e1, k1.mp hA.1, k2.mp hA.2⟩, fun hnA hB => ?_, fun hnA _ hγ => hnA ⟨k1.mpr hγ.1, k2.mpr hγ.2⟩⟩
+    exfalso; apply hnA; constructor <;> linarith [hB.1, hB.2]
+  · have hneg : bu - au < 0 := by linarith
+    have k1 : cu ≤ au ↔ 0 ≤ γ := by
+      rw [hcu]; constructor
+      · intro hh; by_contra hc; push Not at hc; nlinarith
+      · intro hh; nlinarith
+    have k2 : bu ≤ cu ↔ γ ≤ 1 := by
+      rw [hcu]; constructor
+      · intro hh; by_contra hc; push Not at hc; nlinarith
+      · intro hh; nlinarith
+    refine ⟨fun hA => ?_, fun _ hB => ⟨e2, k1.mp hB.1, k2.mp hB.2⟩, fun _ hnB hγ => hnB ⟨k1.mpr hγ.1, k2.mpr hγ.2⟩⟩
+    exfalso; linarith [hA.1, hA.2]
+
+/-- `between(a, b, c)` for a point `c` of the line `a b` (`a ≠ b`): `Some(loc)` exactly when `c` is on the closed segment,
+and `loc` then denotes `c` -/
+private theorem between_param (a b : V2 K) (hab : a ≠ b) (γ : K) :
+    letI := fieldNum K sq
+    match between a b (linePt a b γ) with
+    | some l => locPt a b l = linePt a b γ ∧ (0 ≤ γ ∧ γ ≤ 1)
+    | none => ¬ (0 ≤ γ ∧ γ ≤ 1) := by
+  obtain ⟨c, hc⟩ : ∃ c, c = linePt a b γ := ⟨_, rfl⟩
+  have hcx : c.x = a.x + γ * (b.x - a.x) := by rw [hc]; rfl
+  have hcy : c.y = a.y + γ * (b.y - a.y) := by rw [hc]; rfl
+  have hcc : c = ⟨a.x + γ * (b.x - a.x), a.y + γ * (b.y - a.y)⟩ := hc
+  rw [← hc]
+  unfold between
+  simp only [neq, Bool.and_eq_true, decide_eq_true_eq, Bool.not_eq_true', Bool.and_eq_false_iff, decide_eq_false_iff_not]
+  by_cases hx : a.x = b.x
+  · have hx' : ¬ (¬ a.x ≤ b.x ∨ ¬ b.x ≤ a.x) := by rw [hx]; simp
+    rw [if_neg hx']
+    by_cases hy : a.y = b.y
+    · exfalso; apply hab
+      obtain ⟨ax, ay⟩ := a; obtain ⟨bx, by'⟩ := b
+      simp only at hx hy; rw [hx, hy]
+    · have hy' : (¬ a.y ≤ b.y ∨ ¬ b.y ≤ a.y) := by
+        by_contra hcn; push Not at hcn; exact hy (le_antisymm hcn.1 hcn.2)
+      rw [if_pos hy']
+      obtain ⟨hA, hB, hC⟩ := between_coord a.y b.y c.y γ hy hcy
+      by_cases c1 : a.y ≤ c.y ∧ c.y ≤ b.y
+      · rw [if_pos c1]
+        obtain ⟨e, h0, h1⟩ := hA c1
+        simp only [e]; rw [hcc]; simp only [locPt, V2.mk.injEq]
+        exact ⟨⟨by ring, by ring⟩, h0, h1⟩
+      · rw [if_neg c1]
+        by_cases c2 : c.y ≤ a.y ∧ b.y ≤ c.y
+        · rw [if_pos c2]
+          obtain ⟨e, h0, h1⟩ := hB c1 c2
+          simp only [e]; rw [hcc]; simp only [locPt, V2.mk.injEq]
+          exact ⟨⟨by ring, by ring⟩, h0, h1⟩
+        · rw [if_neg c2]; exact hC c1 c2
+  · have hx' : (¬ a.x ≤ b.x ∨ ¬ b.x ≤ a.x) := by
+      by_contra hcn; push Not at hcn; exact hx (le_antisymm hcn.1 hcn.2)
+    rw [if_pos hx']
+    obtain ⟨hA, hB, hC⟩ := between_coord a.x b.x c.x γ hx hcx
+    by_cases c1 : a.x ≤ c.x ∧ c.x ≤ b.x
+    · rw [if_pos c1]
+      obtain ⟨e, h0, h1⟩ := hA c1
+      simp only [e]; rw [hcc]; simp only [locPt, V2.mk.injEq]
+      exact ⟨⟨by ring, by ring⟩, h0, h1⟩
+    · rw [if_neg c1]
+      by_cases c2 : c.x ≤ a.x ∧ b.x ≤ c.x
+      · rw [if_pos c2]
+        obtain ⟨e, h0, h1⟩ := hB c1 c2
+        simp only [e]; rw [hcc]; simp only [locPt, V2.mk.injEq]
+        exact ⟨⟨by ring, by ring⟩, h0, h1⟩
+      · rw [if_neg c2]; exact hC c1 c2
+
+/-- specification of a collinear result: `None` ⇒ no common point; never `Point`; `Segment{first, second}` ⇒ the paired
+locations denote the same two points `F`, `S`, both on both segments, and every common point lies on `[F, S]`
+(so `[F, S]` **is** the intersection) -/
+def OverlapSpec (a b c d : V2 K) : Option (SegInter K) → Prop
+  | none => ∀ p, OnSeg a b p → OnSeg c d p → False
+  | some (.point _ _) => False
+  | some (.segment f1 f2 s1 s2) =>
+      locPt a b f1 = locPt c d f2 ∧ locPt a b s1 = locPt c d s2 ∧
+      OnSeg a b (locPt a b f1) ∧ OnSeg c d (locPt a b f1) ∧ OnSeg a b (locPt a b s1) ∧ OnSeg c d (locPt a b s1) ∧
+      ∀ p, OnSeg a b p → OnSeg c d p → OnSeg (locPt a b f1) (locPt a b s1) p
+
+private theorem spec_none {a b : V2 K} (hab : a ≠ b) (γ δ : K)
+    (h : ∀ τ, 0 ≤ τ → τ ≤ 1 → Btw γ δ τ → False) :
+    OverlapSpec a b (linePt a b γ) (linePt a b δ) none := by
+  intro p hp hq
+  obtain ⟨τ, h0, h1, rfl⟩ := onSeg_iff.mp hp
+  exact h τ h0 h1 ((onSeg_sub hab γ δ τ).mp hq)
+
+private theorem spec_seg {a b : V2 K} (hab : a ≠ b) (γ δ φ ψ : K) (f1 f2 s1 s2 : SegLoc K)
+    (e1 : locPt a b f1 = linePt a b φ) (e2 : locPt (linePt a b γ) (linePt a b δ) f2 = linePt a b φ)
+    (e3 : locPt a b s1 = linePt a b ψ) (e4 : locPt (linePt a b γ) (linePt a b δ) s2 = linePt a b ψ)
+    (hφ : 0 ≤ φ ∧ φ ≤ 1) (hφ' : Btw γ δ φ) (hψ : 0 ≤ ψ ∧ ψ ≤ 1) (hψ' : Btw γ δ ψ)
+    (h : ∀ τ, 0 ≤ τ → τ ≤ 1 → Btw γ δ τ → Btw φ ψ τ) :
+    OverlapSpec a b (linePt a b γ) (linePt a b δ) (some (.segment f1 f2 s1 s2)) := by
+  refine ⟨e1.trans e2.symm, e3.trans e4.symm, ?_, ?_, ?_, ?_, ?_⟩
+  · rw [e1]; exact (onSeg_linePt hab φ).mpr hφ
+  · rw [e1]; exact (onSeg_sub hab γ δ φ).mpr hφ'
+  · rw [e3]; exact (onSeg_linePt hab ψ).mpr hψ
+  · rw [e3]; exact (onSeg_sub hab γ δ ψ).mpr hψ'
+  · intro p hp hq
+    obtain ⟨τ, h0, h1, rfl⟩ := onSeg_iff.mp hp
+    rw [e1, e3]
+    exact (onSeg_sub hab φ ψ τ).mpr (h τ h0 h1 ((onSeg_sub hab γ δ τ).mp hq))
+
+private theorem sigma_btw (γ δ x : K) (h : γ ≠ δ) :
+    (0 ≤ (x - γ) / (δ - γ) ∧ (x - γ) / (δ - γ) ≤ 1) ↔ Btw γ δ x := by
+  unfold Btw
+  rcases lt_or_gt_of_ne h with hlt | hgt
+  · have hp : 0 < δ - γ := by linarith
+    rw [div_nonneg_iff, div_le_one hp]
+    constructor
+    · rintro ⟨h1 | h1, h2⟩
+      · left; constructor <;> linarith [h1.1]
+      · exfalso; linarith [h1.2]
+    · rintro (h1 | h1)
+      · exact ⟨Or.inl ⟨by linarith [h1.1], hp.le⟩, by linarith [h1.2]⟩
+      · exfalso; linarith [h1.1, h1.2]
+  · have hn : δ - γ < 0 := by linarith
+    rw [div_nonneg_iff, div_le_one_of_neg hn]
+    constructor
+    · rintro ⟨h1 | h1, h2⟩
+      · exfalso; linarith [h1.2]
+      · right; constructor <;> linarith [h1.1]
+    · rintro (h1 | h1)
+      · exfalso; linarith [h1.1, h1.2]
+      · exact ⟨Or.inr ⟨by linarith [h1.2], hn.le⟩, by linarith [h1.1]⟩
+
+omit [LinearOrder K] [IsStrictOrderedRing K] in
+private theorem reparam (a b : V2 K) (γ δ x : K) (h : γ ≠ δ) :
+    linePt (linePt a b γ) (linePt a b δ) ((x - γ) / (δ - γ)) = linePt a b x := by
+  rw [linePt_linePt]
+  have : δ - γ ≠ 0 := sub_ne_zero.mpr (Ne.symm h)
+  congr 1; field_simp; ring
+
+/-- the collinear cascade of `parallel_intersection`, in line-parameter form -/
+private theorem parallel_collinear (a b : V2 K) (hab : a ≠ b) (γ δ : K) (hγδ : γ ≠ δ) (eps : K) (he : 0 ≤ eps) :
+    letI := fieldNum K sq
+    OverlapSpec a b (linePt a b γ) (linePt a b δ) (parallelIntersection a b (linePt a b γ) (linePt a b δ) eps) := by
+  have hcd : linePt a b γ ≠ linePt a b δ := fun h => hγδ (linePt_inj hab h)
+  -- the four `between` calls
+  have hb1 := between_param sq a b hab γ
+  have hb2 := between_param sq a b hab δ
+  have hb3 := between_param sq (linePt a b γ) (linePt a b δ) hcd ((0 - γ) / (δ - γ))
+  have hb4 := between_param sq (linePt a b γ) (linePt a b δ) hcd ((1 - γ) / (δ - γ))
+  rw [reparam a b γ δ 0 hγδ, sigma_btw γ δ 0 hγδ] at hb3
+  rw [reparam a b γ δ 1 hγδ, sigma_btw γ δ 1 hγδ] at hb4
+  have ha0 : linePt a b 0 = a := by simp [linePt]
+  have hb1' : linePt a b 1 = b := by simp [linePt]
+  rw [ha0] at hb3; rw [hb1'] at hb4
+  -- orientation2d(a, b, c) is degenerate
+  have hdeg : @orientation2d K (fieldNum K sq) a b (linePt a b γ) eps = .degenerate := by
+    rw [(orientation2d_spec sq a b (linePt a b γ) eps he).2.2]
+    have : area2 a b (linePt a b γ) = 0 := by simp only [area2, linePt]; ring
+    rw [this, abs_zero]; exact he
+  unfold parallelIntersection
+  rw [hdeg]
+  simp only [ne_eq, not_true_eq_false, if_false]
+  -- locations of the end points
+  have v0ab : locPt a b (.onVertex 0) = linePt a b 0 := by simp [locPt, ha0]
+  have v1ab : locPt a b (.onVertex 1) = linePt a b 1 := by simp [locPt, hb1']
+  have v0cd : locPt (linePt a b γ) (linePt a b δ) (.onVertex 0) = linePt a b γ := by simp [locPt]
+  have v1cd : locPt (linePt a b γ) (linePt a b δ) (.onVertex 1) = linePt a b δ := by simp [locPt]
+  have b00 : Btw γ δ γ := by unfold Btw; rcases le_total γ δ with h | h <;> simp [h]
+  have b11 : Btw γ δ δ := by unfold Btw; rcases le_total γ δ with h | h <;> simp [h]
+  generalize @between K (fieldNum K sq) a b (linePt a b γ) = o1 at hb1 ⊢
+  generalize @between K (fieldNum K sq) a b (linePt a b δ) = o2 at hb2 ⊢
+  generalize @between K (fieldNum K sq) (linePt a b γ) (linePt a b δ) a = o3 at hb3 ⊢
+  generalize @between K (fieldNum K sq) (linePt a b γ) (linePt a b δ) b = o4 at hb4 ⊢
+  rcases o1 with _ | l1 <;> rcases o2 with _ | l2 <;> rcases o3 with _ | l3 <;> rcases o4 with _ | l4 <;>
+    simp only at hb1 hb2 hb3 hb4 ⊢
+  all_goals first
+    | (apply spec_none hab; intro τ h0 h1 hτ; unfold Btw at *; grind)
+    | (refine spec_seg hab γ δ γ δ _ _ _ _ hb1.1 v0cd hb2.1 v1cd hb1.2 b00 hb2.2 b11 ?_
+       intro τ h0 h1 hτ; exact hτ)
+    | (refine spec_seg hab γ δ 0 1 _ _ _ _ v0ab (hb3.1.trans ha0.symm) v1ab (hb4.1.trans hb1'.symm) (by simp) hb3.2
+        (by simp) hb4.2 ?_
+       intro τ h0 h1 hτ; unfold Btw; left; exact ⟨h0, h1⟩)
+    | (refine spec_seg hab γ δ γ 1 _ _ _ _ hb1.1 v0cd v1ab (hb4.1.trans hb1'.symm) hb1.2 b00 (by simp) hb4.2 ?_
+       intro τ h0 h1 hτ; unfold Btw at *; grind)
+    | (refine spec_seg hab γ δ γ 0 _ _ _ _ hb1.1 v0cd v0ab (hb3.1.trans ha0.symm) hb1.2 b00 (by simp) hb3.2 ?_
+       intro τ h0 h1 hτ; unfold Btw at *; grind)
+    | (refine spec_seg hab γ δ δ 1 _ _ _ _ hb2.1 v1cd v1ab (hb4.1.trans hb1'.symm) hb2.2 b11 (by simp) hb4.2 ?_
+       intro τ h0 h1 hτ; unfold Btw at *; grind)
+    | (refine spec_seg hab γ δ δ 0 _ _ _ _ hb2.1 v1cd v0ab (hb3.1.trans ha0.symm) hb2.2 b11 (by simp) hb3.2 ?_
+       intro τ h0 h1 hτ; unfold Btw at *; grind)
+
+private theorem seg_parallel_branch (a b c d : V2 K) (eps : K) (hpar : crossDir a b c d = 0) :
+    letI := fieldNum K sq
+    segmentsIntersection2d a b c d eps = parallelIntersection a b c d eps := by
+  have hd := segDenom_eq sq a b c d
+  unfold segmentsIntersection2d
+  simp only [hd, hpar, neg_zero, ulpsEqZero, epsMach, fieldNum_lit, lt_self_iff_false, if_false, sub_self]
+  have hl : (0 : K) ≤ ((mkRat 1 4503599627370496 : Rat) : K) := by norm_num
+  simp [hl]
+
+/-- **C15, segments, exactly parallel lines** (`(b-a)×(d-c) = 0`, both segments non-degenerate, `eps ≥ 0`), every input:
+* `c` farther than `eps` (in doubled area) from the line `ab` ⇒ `None`, and the segments are indeed disjoint;
+* `c` exactly on the line `ab` (all four points collinear) ⇒ `OverlapSpec`: `None` iff no common point, otherwise
+  `Segment{..}` whose two location pairs denote the two end points of the common sub-segment (the overlap is exactly
+  `[F, S]`); a single common point is reported as a degenerate segment `F = S`. -/
+theorem segments_parallel (a b c d : V2 K) (eps : K) (he : 0 ≤ eps) (hab : a ≠ b) (hcd : c ≠ d)
+    (hpar : crossDir a b c d = 0) :
+    letI := fieldNum K sq
+    (eps < |area2 a b c| →
+      segmentsIntersection2d a b c d eps = none ∧ ∀ p, OnSeg a b p → OnSeg c d p → False) ∧
+    (area2 a b c = 0 → OverlapSpec a b c d (segmentsIntersection2d a b c d eps)) := by
+  rw [seg_parallel_branch sq a b c d eps hpar]
+  constructor
+  · intro hfar
+    constructor
+    · unfold parallelIntersection
+      have hnd : @orientation2d K (fieldNum K sq) a b c eps ≠ .degenerate := by
+        intro h
+        rw [(orientation2d_spec sq a b c eps he).2.2] at h
+        exact absurd h (not_le.mpr hfar)
+      rw [if_pos hnd]
+    · rintro p ⟨t, _, _, hpx, hpy⟩ ⟨s, _, _, hqx, hqy⟩
+      have h0 : area2 a b c = 0 := by
+        unfold area2; unfold crossDir at hpar
+        have ex := hpx.symm.trans hqx
+        have ey := hpy.symm.trans hqy
+        linear_combination (-(b.x - a.x)) * ey + (b.y - a.y) * ex - s * hpar
+      rw [h0, abs_zero] at hfar
+      exact absurd he (not_le.mpr hfar)
+  · intro hcol
+    have hcol' : area2 a b d = 0 := by
+      unfold area2 at hcol ⊢; unfold crossDir at hpar; linear_combination hcol + hpar
+    obtain ⟨γ, rfl⟩ := col_param hab hcol
+    obtain ⟨δ, rfl⟩ := col_param hab hcol'
+    have hγδ : γ ≠ δ := fun h => hcd (by rw [h])
+    exact parallel_collinear sq a b hab γ δ hγδ eps he
+
+/-- non-vacuity: (0,0)-(2,0) and (1,0)-(3,0) are parallel, non-degenerate and collinear -/
+example : crossDir (⟨0,0⟩ : V2 ℚ) ⟨2,0⟩ ⟨1,0⟩ ⟨3,0⟩ = 0 ∧ area2 (⟨0,0⟩ : V2 ℚ) ⟨2,0⟩ ⟨1,0⟩ = 0 ∧
+    (⟨0,0⟩ : V2 ℚ) ≠ ⟨2,0⟩ ∧ (⟨1,0⟩ : V2 ℚ) ≠ ⟨3,0⟩ := by
+  refine ⟨by simp [crossDir], by simp [area2], by simp, by simp⟩
+
 end C15
